@@ -99,6 +99,16 @@ def jubjubFrMont : MontConsts :=
 def c25519FpMont : MontConsts :=
   ⟨c25519FpP, 4, Gen.C25519Fp.INV, limbsVal Gen.C25519Fp.R, limbsVal Gen.C25519Fp.R2, limbsVal Gen.C25519Fp.R3⟩
 
+/-- Parameters of `jubjub::Fr` as read from the source. -/
+def jubjubParams : MontParams := ⟨(L4.ofList Gen.JubjubFr.MODULUS).getD L4.zero, Gen.JubjubFr.INV⟩
+/-- Parameters of the `const fn` path of `bls12_381::Fq`. -/
+def blsFqParams : MontParams := ⟨(L4.ofList Gen.BlsFq.MODULUS).getD L4.zero, Gen.BlsFq.INV⟩
+/-- Parameters of `curve25519::Fp`. -/
+def c25519Params : MontParams := ⟨(L4.ofList Gen.C25519Fp.MODULUS).getD L4.zero, Gen.C25519Fp.INV⟩
+def jubjubR2 : L4 := (L4.ofList Gen.JubjubFr.R2).getD L4.zero
+def jubjubR3 : L4 := (L4.ofList Gen.JubjubFr.R3).getD L4.zero
+def blsFqR2 : L4 := (L4.ofList Gen.BlsFq.R2).getD L4.zero
+
 /-- `ZETA` is a primitive cube root of unity. -/
 def CubeRoot (p z : Nat) : Prop := z < p ∧ z ≠ 1 ∧ z * z % p * z % p = 1
 instance (p z : Nat) : Decidable (CubeRoot p z) := by unfold CubeRoot; infer_instance
